@@ -51,6 +51,31 @@ def draw_config(c):
     return SchedConfig(mode, gran, depth, wide, backend)
 
 
+def _process_copy_of_callable(func):
+    """What a process backend does to the callable itself (loky ships it with
+    cloudpickle): a nested function arrives with *copies* of the objects its
+    closure captured, a bound method with a copy of its instance.  The globals
+    (the entropy seam among them) stay those of this process."""
+    import types
+
+    try:
+        if isinstance(func, types.MethodType):
+            return types.MethodType(func.__func__, pickle.loads(pickle.dumps(func.__self__)))
+        if isinstance(func, types.FunctionType) and func.__closure__:
+            cells = []
+            for cell in func.__closure__:
+                try:
+                    cells.append(types.CellType(pickle.loads(pickle.dumps(cell.cell_contents))))
+                except ValueError:  # empty cell
+                    cells.append(cell)
+            new = types.FunctionType(func.__code__, func.__globals__, func.__name__, func.__defaults__, tuple(cells))
+            new.__kwdefaults__ = func.__kwdefaults__
+            return new
+    except Exception:  # noqa: BLE001 -- not picklable: the callable is shared as it is
+        return func
+    return func
+
+
 class _Worker:
     __slots__ = ("idx", "thread", "event", "state", "task", "prio")
 
@@ -112,7 +137,7 @@ class Scheduler:
             func, args, kwargs = item
             try:
                 args, kwargs = pickle.loads(pickle.dumps((args, kwargs)))
-                item = (func, args, kwargs)
+                item = (_process_copy_of_callable(func), args, kwargs)
             except Exception:  # noqa: BLE001 -- unpicklable argument: this call stays on threads
                 self.copy_args = False
                 self.c.probe("process_backend_fell_back_to_threads")
